@@ -23,10 +23,10 @@ func init() {
 	register(&PropDef{ID: "C12", Level: "other", Run: runC12,
 		Explanation: "Structure of exactly-once delivery on shared listeners, for all interleavings: (ONEPUMP) one reader goroutine per socket creation, started only on the socket == nil edge; " +
 			"(CANCELPUMP) in each reader goroutine every blocking channel operation is a select arm next to a receive on a channel that the last release closes (a bare send is a violation unless " +
-			"the channel is a private buffered response channel), and on the cancel arm a pending accepted connection is closed; (PROMPTREPLY) once the reader has taken a read request it " +
+			"the channel is a private buffered response channel), and every way out of the cancel arm on which the accept had succeeded closes the pending connection; (PROMPTREPLY) once the reader has taken a read request it " +
 			"answers it without any further blocking socket call (the handle waits for that answer without watching its close signal); (LASTCLOSE) on the count == 0 edge the socket is closed, the " +
 			"reader is signalled, and the manager callback is invoked at most once (field cleared before the call); (CLOSEDGUARD) every handle method that blocks on the shared channel also " +
-			"waits on the handle's close channel and excludes the closed state first (shared channel niled under the handle mutex by Close, or a dominating non-blocking poll of the close channel).",
+			"waits on the handle's close channel and excludes the closed state first (shared channel niled under the handle mutex by Close, or a dominating non-blocking poll of the close channel); (HANDLECLOSE) every path through a handle's Close that changes its state or runs the release callback also closes the close channel.",
 		NotDecided: "actual delivery under schedules (which handle gets which datagram), re-bindability of the port at the OS level, fairness of select.",
 	})
 }
